@@ -30,6 +30,7 @@ type linkSpec struct {
 	src, dst int
 	w        float64
 	td       bool
+	rec      bool // Link.IsRecurrent: a per-link flag copied from the gene at Genesis, NOT a statement about the topology
 }
 
 type nodeSpec struct {
@@ -56,6 +57,7 @@ func (sp *netSpec) build() *network.Network {
 	for _, l := range sp.links {
 		lk := nodes[l.dst].ConnectFrom(nodes[l.src], l.w)
 		lk.IsTimeDelayed = l.td
+		lk.IsRecurrent = l.rec
 	}
 	in := make([]*network.NNode, len(sp.inputs))
 	for i, k := range sp.inputs {
